@@ -29,6 +29,9 @@ CHECKS = {
  "C08": dict(engine="simrt+simnet+modelredis", cat="exploration", ref="DESIGN.md 5/C08",
    text="Seeded search over traffic histories spanning several ACK ticks, start offsets, and up to two cuts of the replication link at tape-chosen stream positions with refused re-dials; the oracle reads the tool's own REPLCONF ACK / PSYNC writes together with the exact number of bytes its reads had returned, and checks end-to-end stream continuity and checkpoint offsets.",
    tech="deterministic simulation: recorded simulated transport (byte-exact read/write events), link-cut fault injection, master/target models"),
+ "C04": dict(engine="simrt+simnet+modelredis", cat="exploration", ref="DESIGN.md 5/C04",
+   text="Seeded search over source histories, batchings and 1-3 interruption points (target connection cut at a byte position, reset at an instant, crash of the tool process) followed by restart and resume; at every cut the target dataset must equal a reference interpreter fed with the source history up to the stored checkpoint offset, and at the end an uninterrupted run.",
+   tech="deterministic simulation with crash/restart and connection-cut fault injection; reference interpreter (detached Redis model) as oracle"),
  "C18": dict(engine="simrt", cat="exploration", ref="DESIGN.md 5/C18",
    text="Seeded search over writer/reader/closer scripts and lock-granularity interleavings of the real backlog ring against an absolute-offset log model (interval semantics for in-flight writes), with lost-wake-up analysis at quiescence.",
    tech="deterministic simulation: tape-driven baton scheduler over instrumented locks/conds + absolute-offset log model"),
